@@ -112,6 +112,10 @@ class Sig:
         self.extra = b""
 
     def enc(self, order=None):
+        return tlv(0x800, self.body(order) + self.extra)
+
+    def body(self, order=None):
+        """the signature's elements without the 0x800 envelope (what an aggregation response carries)"""
         parts = [c.enc() for c in (order or self.chains)]
         if self.cal:
             parts.append(self.cal.enc())
@@ -122,14 +126,14 @@ class Sig:
             parts.append(tlv(0x805, tlv(0x10, tlv(0x02, be(self.auth[0])) + tlv(0x04, self.auth[1])) + tlv(0x0b, sd)))
         if self.rfc:
             parts.append(self.rfc.enc())
-        return tlv(0x800, b"".join(parts) + self.extra)
+        return b"".join(parts)
 
     def clone(self):
         return copy.deepcopy(self)
 
-    def relink(self, upto=None):
+    def relink(self, upto=None, start_level=0):
         """recompute every input hash above the first chain, the calendar input and root, and the records"""
-        level, cur = 0, None
+        level, cur = start_level, None
         for c in self.chains:
             if cur is not None:
                 c.input_hash = cur
